@@ -35,7 +35,7 @@ pub struct Case {
 pub const POSITIONS: [&str; 10] = ["struct", "field", "unit-enum", "unit-variant", "tagged-enum", "tagged-variant", "variant-field", "alias", "inline-newtype", "redacted-struct"];
 
 /// terminator-class hazards: at most one kind per doc string (so that signatures name one cause)
-const HAZARDS: [(&str, &str); 8] = [("carriage-return", "\r"), ("newline", "\n"), ("block-end", "*/"), ("triple-dquote", "\"\"\""), ("backslash", "\\"), ("trailing-backslash", "\\"), ("newline-crlf", "\r\n"), ("newline-mixed", "\r\n")];
+const HAZARDS: [(&str, &str); 10] = [("quote-run", "\"\"\"\""), ("quote-run", "\"\"\"\"\""), ("carriage-return", "\r"), ("newline", "\n"), ("block-end", "*/"), ("triple-dquote", "\"\"\""), ("backslash", "\\"), ("trailing-backslash", "\\"), ("newline-crlf", "\r\n"), ("newline-mixed", "\r\n")];
 const BENIGN: [&str; 10] = ["plain words", "//", "#", "`", "\"", "'''", "/*", "x = 1;", "}", "<T>"];
 
 fn hazard_of(d: &DocSpec) -> &'static str {
@@ -54,6 +54,9 @@ fn hazard_of(d: &DocSpec) -> &'static str {
         }
         if p.contains("*/") {
             return "block-end";
+        }
+        if p.contains("\"\"\"\"") {
+            return "quote-run";
         }
         if p.contains("\"\"\"") {
             return "triple-dquote";
@@ -147,14 +150,22 @@ fn build_items(case: &Case) -> (Vec<Item>, Vec<(usize, usize, DocSpec)>) {
         case.docs
             .get(pos)
             .map(|v| {
-                v.iter()
+                let mut docs: Vec<Doc> = v
+                    .iter()
                     .map(|d| {
                         let id = next;
                         next += 1;
                         ids.push((id, pos, d.clone()));
                         to_doc(d, id)
                     })
-                    .collect()
+                    .collect();
+                // attributes and doc lines may be interleaved in the source: every doc line still belongs to the item
+                if docs.len() >= 2 && (v[0].pieces.len() + pos) % 2 == 0 {
+                    docs.insert(1, Doc::NonDoc(["allow(dead_code)", "doc(hidden)", "allow(clippy::all)"][(v[0].pieces.len() + pos / 2) % 3].to_string()));
+                } else if docs.len() == 1 && (v[0].pieces.len() + pos) % 5 == 0 {
+                    docs.insert(0, Doc::NonDoc("doc(hidden)".to_string()));
+                }
+                docs
             })
             .unwrap_or_default()
     };
@@ -331,7 +342,7 @@ impl SubCheck for C15 {
 
 pub fn run(run: &Run) {
     ts::install_panic_hook();
-    run.set_rule("a fixed program with every documentable position (struct, field, unit enum, unit variant, tagged enum, tagged variant, struct-variant field, alias); each position gets 0-3 doc strings written as ///, /** */ or #[doc = \"..\"], built from benign pieces {words, //, #, back-tick, double quote, ''', /*, code-like text} plus at most one terminator-class hazard kind {newline, CRLF, CRLF and LF mixed in one string, a lone carriage return, */, \"\"\", backslash, trailing backslash}; a unique sentinel follows every piece. Oracle: every sentinel occurrence in the output lies inside a comment token of the target language (Python: comment token or expression-statement string, judged by CPython) and the file still tokenises; every sentinel is reproduced. Non-trivial = doc string carries a hazard; distinct by (position, doc string).");
+    run.set_rule("a fixed program with every documentable position (struct, field, unit enum, unit variant, tagged enum, tagged variant, struct-variant field, alias); each position gets 0-3 doc strings written as ///, /** */ or #[doc = \"..\"], built from benign pieces {words, //, #, back-tick, double quote, ''', /*, code-like text} plus at most one terminator-class hazard kind {newline, CRLF, CRLF and LF mixed in one string, a lone carriage return, */, \"\"\", runs of 4 and 5 double quotes, backslash, trailing backslash}; a unique sentinel follows every piece; a non-doc attribute (allow / doc(hidden)) is written between or before the doc lines of some positions. Oracle: every sentinel occurrence in the output lies inside a comment token of the target language (Python: comment token or expression-statement string, judged by CPython) and the file still tokenises; every sentinel is reproduced. Non-trivial = doc string carries a hazard; distinct by (position, doc string).");
     run.assume("comment/string boundaries are decided by the harness tokeniser for TS/Kotlin/Swift/Scala/Go (language lexical rules incl. nested block comments) and by CPython's tokenize/ast for Python");
     replay_regress(run, &C15);
     search(run, &C15, run.tier.pick(3000, 100_000));    if run.tier == Tier::Thorough {
